@@ -19,6 +19,7 @@ import (
 	"fmt"
 	"io"
 	"math/rand/v2"
+	"net/url"
 	"regexp"
 	"sort"
 	"strconv"
@@ -30,7 +31,6 @@ import (
 	"github.com/daeuniverse/dae/config"
 	"github.com/daeuniverse/dae/pkg/config_parser"
 	vk "github.com/daeuniverse/dae/verifkit"
-	D "github.com/daeuniverse/outbound/dialer"
 	"github.com/daeuniverse/outbound/netproxy"
 	"github.com/sirupsen/logrus"
 )
@@ -549,6 +549,25 @@ func (g *c14Gen) gen() *c14Case {
 	}
 	for i := 0; i < nl; i++ {
 		var l c14Line
+		if i > 0 && g.r.IntN(6) == 0 {
+			// a near-copy of the previous line: same functions, one value (preferably a late one of
+			// a long list) exchanged; whatever is remembered about the earlier line must not be
+			// taken for this one
+			prev := c.Lines[i-1]
+			for _, t := range prev.Terms {
+				nt := c14Term{Input: t.Input, Not: t.Not, Vals: append([]c14Val(nil), t.Vals...)}
+				l.Terms = append(l.Terms, nt)
+			}
+			t := &l.Terms[g.r.IntN(len(l.Terms))]
+			k := len(t.Vals) - 1
+			if g.r.IntN(4) == 0 {
+				k = g.r.IntN(len(t.Vals))
+			}
+			t.Vals[k] = g.val(c.Pool, t.Input)
+			l.Anno = []c14Anno{{Key: "add_latency", Val: g.pick(c14GoodDur), Bare: g.r.IntN(2) == 0}}
+			c.Lines = append(c.Lines, l)
+			continue
+		}
 		nt := 1 + g.r.IntN(3)
 		for j := 0; j < nt; j++ {
 			t := c14Term{Input: "name", Not: g.r.IntN(10) < 3}
@@ -556,6 +575,9 @@ func (g *c14Gen) gen() *c14Case {
 				t.Input = "subtag"
 			}
 			nv := 1 + g.r.IntN(3)
+			if g.r.IntN(8) == 0 {
+				nv = 5 + g.r.IntN(5) // long alternatives lists
+			}
 			for k := 0; k < nv; k++ {
 				t.Vals = append(t.Vals, g.val(c.Pool, t.Input))
 			}
@@ -682,6 +704,8 @@ type c14Got struct {
 	Offsets []time.Duration
 	Policy  DialerSelectionPolicy
 	Extra   string // structural damage of the result (nil entries, foreign dialers, length mismatch)
+	// PoolOrder: pool node indices in the order of the constructed pool (DialerSet.dialers)
+	PoolOrder []int
 }
 
 func c14Run(c *c14Case) (got c14Got) {
@@ -703,16 +727,35 @@ func c14Run(c *c14Case) (got c14Got) {
 	}
 	group := conf.Group[0]
 
-	set := &DialerSet{log: c14Log, nodeToTagMap: map[*dialer.Dialer]string{}}
-	index := map[*dialer.Dialer]int{}
+	// The pool is built by the production constructor from node links (socks5 links parse offline;
+	// the node name is the link's fragment, the subscription tag the map key). Pool node i is
+	// recognised by its port. The constructor walks the tag map in Go's random order, so the pool
+	// order is whatever set.dialers says afterwards; it is handed to the judge.
+	tagToLinks := map[string][]string{}
 	for i, n := range c.Pool {
-		d := dialer.NewDialer(c14NoopDialer{}, c14Option, dialer.InstanceOption{DisableCheck: true},
-			&dialer.Property{Property: D.Property{Name: n.Name}, SubscriptionTag: n.Tag})
-		set.dialers = append(set.dialers, d)
-		set.nodeToTagMap[d] = n.Tag
-		index[d] = i
+		tagToLinks[n.Tag] = append(tagToLinks[n.Tag], fmt.Sprintf("socks5://127.0.0.1:%d#%s", 20000+i, url.PathEscape(n.Name)))
 	}
+	set := NewDialerSetFromLinks(c14Option, tagToLinks)
 	defer set.Close()
+	index := map[*dialer.Dialer]int{}
+	var poolOrder []int
+	for _, d := range set.dialers {
+		var port int
+		if p := d.Property(); p != nil {
+			if k := strings.LastIndexByte(p.Address, ':'); k >= 0 {
+				port, _ = strconv.Atoi(p.Address[k+1:])
+			}
+		}
+		i := port - 20000
+		if i < 0 || i >= len(c.Pool) || d.Property().Name != c.Pool[i].Name || d.Property().SubscriptionTag != c.Pool[i].Tag {
+			return c14Got{Stage: "ok", Extra: fmt.Sprintf("pool constructor produced node %+v that is not pool node %d (%+v)", d.Property(), i, c.Pool)}
+		}
+		index[d] = i
+		poolOrder = append(poolOrder, i)
+	}
+	if len(poolOrder) != len(c.Pool) {
+		return c14Got{Stage: "ok", Extra: fmt.Sprintf("pool constructor produced %d nodes from %d links", len(poolOrder), len(c.Pool))}
+	}
 
 	// same order as control/control_plane.go: policy first, then the filters
 	policy, err := NewDialerSelectionPolicyFromGroupParam(&group)
@@ -723,7 +766,7 @@ func c14Run(c *c14Case) (got c14Got) {
 	if err != nil {
 		return c14Got{Stage: "filter", Err: err.Error()}
 	}
-	got = c14Got{Stage: "ok", Policy: *policy}
+	got = c14Got{Stage: "ok", Policy: *policy, PoolOrder: poolOrder}
 	if len(ds) != len(annos) {
 		got.Extra = fmt.Sprintf("%d dialers but %d annotations", len(ds), len(annos))
 		return got
@@ -760,6 +803,27 @@ func c14Judge(c *c14Case, e *c14Expect, g *c14Got) (sig, what string) {
 	}
 	if g.Extra != "" {
 		return "malformed-result", g.Extra
+	}
+	if len(g.PoolOrder) == len(c.Pool) && len(e.Members) > 1 {
+		// "in pool order" refers to the pool as constructed
+		rank := make(map[int]int, len(g.PoolOrder))
+		for pos, i := range g.PoolOrder {
+			rank[i] = pos
+		}
+		perm := make([]int, len(e.Members))
+		for k := range perm {
+			perm[k] = k
+		}
+		sort.SliceStable(perm, func(a, b int) bool { return rank[e.Members[perm[a]]] < rank[e.Members[perm[b]]] })
+		e2 := *e
+		e2.Members, e2.Offsets, e2.OffsetJudged, e2.WinLine = nil, nil, nil, nil
+		for _, k := range perm {
+			e2.Members = append(e2.Members, e.Members[k])
+			e2.Offsets = append(e2.Offsets, e.Offsets[k])
+			e2.OffsetJudged = append(e2.OffsetJudged, e.OffsetJudged[k])
+			e2.WinLine = append(e2.WinLine, e.WinLine[k])
+		}
+		e = &e2
 	}
 	name, idx, _ := c14PolicyExpect(c.Policy)
 	if string(g.Policy.Policy) != name || (name == "fixed" && g.Policy.FixedIndex != idx) {
